@@ -405,6 +405,76 @@ func c15Run(c *engine.Ctx) {
 			}
 		}
 	})
+	// proper crossings NEAR THE TIPS of segments of unequal length: a long segment from the origin
+	// along every primitive direction with |a|,|b| <= 3 (8 or 40 steps), crossed at its lattice
+	// point 1..3 steps before the tip by a short segment along every other primitive direction that
+	// reaches 1..3 steps to one side and 1..3, 20 or 45 steps to the other; both directions of the long segment, the short one first
+	// and second (c15Exec adds the swapped and reversed calls)
+	var prim [][2]float64
+	for a := -3; a <= 3; a++ {
+		for b := -3; b <= 3; b++ {
+			if (a != 0 || b != 0) && gcdInt(absInt(a), absInt(b)) == 1 {
+				prim = append(prim, [2]float64{float64(a), float64(b)})
+			}
+		}
+	}
+	c.Parallel(len(prim), func(i int) {
+		ab := prim[i]
+		for _, m := range []float64{8, 40} {
+			for k := 1.0; k <= 3; k++ {
+				x := [2]float64{(m - k) * ab[0], (m - k) * ab[1]}
+				for _, d := range prim {
+					if d[0]*ab[1]-d[1]*ab[0] == 0 {
+						continue
+					}
+					for _, u := range []float64{1, 2, 3} {
+						for _, v := range []float64{1, 2, 3, 20, 45} { // (the far side also long: both segments long, of different length, crossing near a tip of each)
+							tip := [2]float64{m * ab[0], m * ab[1]}
+							p, q := [2]float64{x[0] - u*d[0], x[1] - u*d[1]}, [2]float64{x[0] + v*d[0], x[1] + v*d[1]}
+							c.Count("tip_crossings", 2)
+							c15Exec(c, c15Case{Mode: "seg-seg2", V: []ref.F{0, 0, ref.F(tip[0]), ref.F(tip[1]), ref.F(p[0]), ref.F(p[1]), ref.F(q[0]), ref.F(q[1])}})
+							c15Exec(c, c15Case{Mode: "seg-seg2", V: []ref.F{ref.F(tip[0]), ref.F(tip[1]), 0, 0, ref.F(p[0]), ref.F(p[1]), ref.F(q[0]), ref.F(q[1])}})
+						}
+					}
+				}
+			}
+		}
+	})
+	// 3D segment pairs with ordinates 0..3 (the {0,1,2}^3 sweep cannot hold an overshoot beyond the
+	// far end of the other segment): every b, c, d in {0..3}^3 for three choices of a
+	if true {
+		var g4 [][3]float64
+		for x := 0; x < 4; x++ {
+			for y := 0; y < 4; y++ {
+				for z := 0; z < 4; z++ {
+					g4 = append(g4, [3]float64{float64(x), float64(y), float64(z)})
+				}
+			}
+		}
+		as := [][3]float64{{0, 0, 0}, {0, 0, 3}, {1, 2, 3}}
+		f3b := func(ps ...[3]float64) []ref.F {
+			var out []ref.F
+			for _, p := range ps {
+				out = append(out, ref.F(p[0]), ref.F(p[1]), ref.F(p[2]))
+			}
+			return out
+		}
+		step := 3 // quick: every third d
+		if c.Thorough() {
+			step = 1
+		}
+		c.Parallel(len(g4), func(i int) {
+			b := g4[i]
+			for ai, a := range as {
+				for ci, cc := range g4 {
+					for di := (i + ci + ai) % step; di < len(g4); di += step {
+						c.Count("grid4_3d_pairs", 1)
+						c15Exec(c, c15Case{Mode: "seg-seg3", V: f3b(a, b, cc, g4[di])})
+					}
+				}
+			}
+		})
+	}
 	// every polyline of 4 (thorough: also 5) vertices on the 3x3 grid - repeated vertices at any
 	// position included (a zero-length first, middle or last segment, a line that folds back) - x
 	// every query point of the grid, in strides 2..5
